@@ -20,7 +20,7 @@ RULE = (
     "the schedule-owning executor, and crash inside the w-th chunk write (w=1..W) via the store, so a task writing several chunks is cut "
     "in the middle. The crashing run executes each operation's tasks in plan order or in a drawn permutation (so the chunks present "
     "after the crash are an arbitrary subset, not only a prefix). After each crash compute(resume=True) runs on a drawn executor "
-    "(schedule-owning, single-threaded, threads); in a third of the programs the resumed run is itself crashed (before its j-th task / "
+    "(schedule-owning, single-threaded, threads, threads with compute_arrays_in_parallel, threads with batch_size); in a third of the programs the resumed run is itself crashed (before its j-th task / "
     "inside its j-th chunk write, j <= 3), held to rules (c) and (d), and resumed a second time. "
     "Oracle: (a) the resumed run either refuses before any task (plans containing arrays whose storage cannot report completeness) or "
     "completes with the clean run's values; (b) an operation skipped on resume had every chunk of every output present after the crash "
@@ -47,7 +47,7 @@ def case_strategy(opts=None, max_ops=4):
             "kind": "program",
             "prog": prog,
             "optimize": draw(st.booleans()),
-            "resume_executor": draw(st.sampled_from(["schedule", "schedule", "single-threaded", "threads"])),
+            "resume_executor": draw(st.sampled_from(["schedule", "schedule", "single-threaded", "threads", "threads-parallel", "threads-parallel", "threads-batch"])),
             "sinks": draw(S.sinks_strategy(prog, classes=("fresh", "group"), max_sinks=2, allow_repeat=False)) if draw(st.integers(0, 3)) == 0 else [],
             "points": None,
             # the crashing run executes the tasks of each operation in a drawn order (None: plan order), so the set of chunks that
@@ -259,7 +259,9 @@ def check_case(case, acc=None) -> Outcome:
             if rn == "schedule":
                 ex2 = H.ScheduleExecutor(H.Schedule())
             else:
-                ex2 = H.RecordingExecutor(H.make_executor(rn, max_workers=2))
+                # the resumed run may visit operations by topological generations (compute_arrays_in_parallel) or in batches
+                eo = {"threads-parallel": {"compute_arrays_in_parallel": True}, "threads-batch": {"batch_size": 2}}.get(rn, {})
+                ex2 = H.RecordingExecutor(H.make_executor(rn.split("-")[0] if rn.startswith("threads") else rn, max_workers=2, **eo))
             cb = H.RecordingCallback()
             try:
                 res = [np.asarray(r) for r in cubed.compute(*outs, executor=ex2, callbacks=[cb], resume=True, **kw)]
